@@ -402,6 +402,83 @@ def _simplify_ifexps(ps):
     ps.order = new_order
 
 
+_SPELL_HINT = ('filter(', 'map(', 'operator.', 'lambda', 'attrgetter', 'itemgetter',
+               'methodcaller', '__getitem__', '__contains__', '*(')
+
+
+def _spell_resolved(ps, func):
+    """spelling normal forms that only show once locals are resolved (a helper's
+    `filter(lambda ...)` result bound to a temporary and consumed by tuple(), an
+    operator.* call on resolved operands ...): applied to the resolved expressions
+    of events, result and facts"""
+    from .normalize import _Spell, alpha, _module_of, _opname
+
+    def hinted(e):
+        if e is None:
+            return False
+        try:
+            t = ast.unparse(e)
+        except Exception:
+            return False
+        return any(h in t for h in _SPELL_HINT)
+    sp = _Spell()
+    sp.aliases = {}
+    mod_ = _module_of(func)
+    if mod_ is not None:
+        for st_ in mod_.body:
+            if isinstance(st_, ast.Assign) and len(st_.targets) == 1 and \
+                    isinstance(st_.targets[0], ast.Name):
+                v_ = st_.value
+                if isinstance(v_, ast.Lambda) or (
+                        isinstance(v_, ast.Call) and _opname(v_.func) in (
+                            'attrgetter', 'itemgetter', 'methodcaller')):
+                    sp.aliases[st_.targets[0].id] = v_
+
+    def norm(e):
+        if not hinted(e):
+            return e
+        new = clone(e)
+        for _ in range(3):
+            sp.changed = False
+            new = sp.visit(new)
+            if not sp.changed:
+                break
+        ast.fix_missing_locations(new)
+        alpha(new)
+        return new
+    for e in ps.events:
+        e.r = norm(e.r)
+        if e.val is not None:
+            e.val = norm(e.val)
+    if ps.ret is not None:
+        ps.ret = norm(ps.ret)
+    if ps.raised is not None:
+        ps.raised = norm(ps.raised)
+    new_order = []
+    for c, t, p in ps.order:
+        if any(h in c for h in _SPELL_HINT) and not c.startswith(('EXCEPT(',)):
+            inner, pre, post = c, '', ''
+            if c.startswith('ITER(') and c.endswith(')'):
+                inner, pre, post = c[5:-1], 'ITER(', ')'
+            try:
+                e = ast.parse(inner, mode='eval').body
+                e2 = norm(e)
+                if pre:
+                    c2, t2 = pre + norm_src(e2) + post, t
+                else:
+                    c2, pol = canon(e2, True)
+                    t2 = t if pol else (not t)
+                if c2 != c:
+                    ps.facts.pop(c, None)
+                    ps.facts[c2] = t2
+                new_order.append((c2, t2, p))
+                continue
+            except SyntaxError:
+                pass
+        new_order.append((c, t, p))
+    ps.order = new_order
+
+
 def _mark_stale(ps, stale, since):
     """a store/del through X[...] or X.attr since the last test may have
     changed what earlier call-free conditions about X evaluate to"""
@@ -711,6 +788,7 @@ def summarise(func, limit=6000, to_raise=True, lists=False):
         ps.env = env
         if not ps.infeasible:
             _simplify_ifexps(ps)
+            _spell_resolved(ps, func)
             out.append(ps)
     return out
 
